@@ -247,6 +247,26 @@ CHECKS = {
         note="Trusted: TLC, GCC 12 ASan/LSan, the driver. The Fortran side of the pipelines (trim(x)//C_NULL_CHAR, "
              "len vs len_trim, allocatable results) is covered end to end by C01, not here.",
     ),
+    "C04": dict(
+        level="model_checking",
+        design="DESIGN.md section 4 / C04",
+        technique="TLA+ spec BindC (Fortran/C interoperability relation as data; Define / DefineStruct / BindType / "
+                  "Bind events) checked by TLC; every bind(C) interface body, bind(C) derived type and native type-"
+                  "registry entry of real Shroud runs, read back from the generated Fortran and C files, validated "
+                  "against Trace_BindC by TLC",
+        text="TLC exhausts the relation on all dummy-argument x C-parameter shapes (classes int/real/bool/char/complex/"
+             "pointer/function pointer/descriptor x sizes x VALUE x array x indirection): a scalar never matches "
+             "another class, size or passing mode. Conformance: every configuration of the upstream corpus in "
+             "thorough (16 in quick, including both F_CFI configurations) and the generated run-time library with "
+             "F_CFI off and on are generated by the real Shroud; each interface body becomes a trace with the C "
+             "function it names (prototype from the generated or the user's header, or a non-static definition in a "
+             "generated source) and all struct / derived-type layouts; TLC decides: the bound function exists, same "
+             "number of arguments, each dummy interoperable with its parameter, interoperable result, derived types "
+             "match their C structs field by field, registry kinds match their C types.",
+        note="Trusted: TLC, harness/bindc_parse.py (declaration readers), LP64 sizes. Interfaces bound to user functions "
+             "for which the corpus ships no header are counted and not judged. unsigned is treated as the signed kind "
+             "of the same size; typed data passed to a generic void * is accepted.",
+    ),
 }
 
 ALL = ["C%02d" % i for i in range(1, 19)]
